@@ -418,7 +418,7 @@ inductive Event where
   | hRefresh | hNameplateCompletions | hChooseNameplate (valid : Bool) | hWordCompletions | hChooseWords
   | send | close
   -- connection
-  | wsOpen | wsClose | failInitial | svcStopped
+  | wsOpen | wsClose | wsFail | failInitial | svcStopped
   -- server → client frames
   | welcome (err : Bool) | claimed | released | closedResp | allocated | nameplates | ack | serverError
   | message (side : Side) (ph : PhaseC) (new : Bool) (good : Bool) (pake : PakeKind)
@@ -473,12 +473,22 @@ def step (c : Ctl) : Event → Ctl × List Obs × Outcome
       [(.tx .bind, {}), (.N .connected, {}), (.M .connected, {}), (.L .connected, {}), (.A .connected, {})]
   | .wsClose =>
     -- ws_close: was_open = bool(_ws); _ws = None; if was_open: N/M/L/A.lost()   (no handler: an
-    -- exception here escapes to Twisted).  The branch for a close without any prior open
-    -- (websocket negotiation failure on the first connection) is not modelled.
+    -- exception here escapes to Twisted).  A close without any prior open is the event `wsFail`.
     if !c.wsOpen then (c, [], .ok)
     else match api { c with wsOpen := false } [(.N .lost, {}), (.M .lost, {}), (.L .lost, {}), (.A .lost, {})] with
       | (c2, obs, .apiError e) => (c2, obs, .internal e)
       | r => r
+  | .wsFail =>
+    -- ws_close without a preceding ws_open (the TCP connection came up but the WebSocket
+    -- negotiation failed): was_open is False, so the machines are not told; only if there has
+    -- NEVER been a successful connection is it treated as a failed initial connection:
+    -- stopService (immediate: the fake/real service has no established connection), then
+    -- B.error(ServerConnectionError) — note: no `_stopping` check on this path
+    if c.wsOpen then (c, [], .ok)
+    else if c.everConnected then (c, [], .ok)
+    else match api c [(.B .k_error, { verdict := .connectionError })] with
+      | (c2, obs, .apiError e) => (c2, .stopService :: obs, .internal e)
+      | (c2, obs, oc) => (c2, .stopService :: obs, oc)
   | .failInitial =>
     -- _initial_connection_failed: if not self._stopping: stopService (immediate: no connection);
     -- B.error(ServerConnectionError)
